@@ -153,16 +153,17 @@ class DeviceInfoCache:
         if (cache_id is None) or (device_info.deviceIdentifier != cache_id):
             if _debug: DeviceInfoCache._debug("    - device identifier updated")
 
-            # remove the old reference if there is one, add the new one
-            if cache_id is not None:
+            # remove the old reference if it is still ours, add the new one
+            if (cache_id is not None) and (self.cache.get(cache_id) is device_info):
                 del self.cache[cache_id]
             self.cache[device_info.deviceIdentifier] = device_info
 
         if (cache_address is None) or (device_info.address != cache_address):
             if _debug: DeviceInfoCache._debug("    - device address updated")
 
-            # remove the old reference if there is one, add the new one
-            if cache_address is not None:
+            # remove the old reference if it is still ours (another device
+            # may have announced itself from that address since), add the new one
+            if (cache_address is not None) and (self.cache.get(cache_address) is device_info):
                 del self.cache[cache_address]
             self.cache[device_info.address] = device_info
 
